@@ -25,8 +25,8 @@ import secsgem.gem  # noqa: E402
 import secsgem.hsms  # noqa: E402
 import secsgem.gem.collection_event_capability as cec  # noqa: E402
 
-BOUND = 12.0
-CALL = 6.0
+BOUND = 90.0     # reaching COMMUNICATING
+CALL = 90.0      # one host / equipment API call; an expiry is a RuntimeError (check broken), never an observation
 T = lambda s: "t" + hexs(s)  # noqa: E731
 
 EVCFG = ("C" + ",".join(["n1", "n2", "n3", "n20", "n21", "n100", "n101", "n102", "n5001", "n5002", "n5003"])
@@ -66,7 +66,7 @@ def bounded(fn, bound=CALL):
     t.start()
     t.join(bound)
     if t.is_alive():
-        return "timeout", None
+        raise RuntimeError(f"c20_gem: a call did not return within {bound} s")
     return ("raised", out["e"]) if "e" in out else ("ok", out.get("v"))
 
 
@@ -76,6 +76,7 @@ class Eq(secsgem.gem.GemEquipmentHandler):
     def __init__(self, settings):
         super().__init__(settings, initial_control_state="HOST_OFFLINE")
         self.log = []
+        self.done41 = threading.Event()
         self.status_variables[10] = secsgem.gem.StatusVariable(10, "sv10", "m", V.U4, use_callback=False)
         self.data_values[30] = secsgem.gem.DataValue(30, "dv30", V.U4, False)
         self.data_values[31] = secsgem.gem.DataValue(31, "dv31", V.String, False)
@@ -112,17 +113,14 @@ class Eq(secsgem.gem.GemEquipmentHandler):
         self.log.append("t" + ",".join(cid(c) for c in ceids))
         return super().trigger_collection_events(ceids)
 
-
-def settle(log, quiet=0.04, bound=2.0):
-    """wait until `log` has not grown for `quiet` seconds (bounded)"""
-    t_end = time.time() + bound
-    n, t_last = len(log), time.time()
-    while time.time() < t_end:
-        time.sleep(0.003)
-        if len(log) != n:
-            n, t_last = len(log), time.time()
-        elif time.time() - t_last >= quiet:
-            return
+    def _handle_stream_function(self, message):
+        """as the library's; tells the harness when the handling of an S2F41 is completely over (the S2F42 leaves BEFORE the
+        callback runs, an S2F0 after it)"""
+        try:
+            super()._handle_stream_function(message)
+        finally:
+            if (message.header.stream, message.header.function) == (2, 41):
+                self.done41.set()
 
 
 class Rig:
@@ -139,8 +137,8 @@ class Rig:
                 self.conn = pairlib.Pipe(self, "equip")
                 return self.conn
 
-        hs = HS(connect_mode=mk.ACTIVE, device_type=secsgem.common.DeviceType.HOST, t3=2, t6=2, establish_communication_timeout=1)
-        es = ES(connect_mode=mk.PASSIVE, device_type=secsgem.common.DeviceType.EQUIPMENT, t3=2, t6=2, establish_communication_timeout=1)
+        hs = HS(connect_mode=mk.ACTIVE, device_type=secsgem.common.DeviceType.HOST, t3=45, t6=45, establish_communication_timeout=1)
+        es = ES(connect_mode=mk.PASSIVE, device_type=secsgem.common.DeviceType.EQUIPMENT, t3=45, t6=45, establish_communication_timeout=1)
         self.host = secsgem.gem.GemHostHandler(hs)
         self.eq = Eq(es)
         self.hc, self.ec = self.host.protocol._connection, self.eq.protocol._connection  # pylint: disable=protected-access
@@ -206,13 +204,15 @@ def rcmd_section(res, rng, drv, rig, n):
         as_odict = rng.chance(1, 3) and len({p[0] for p in params}) == len(params)
         eq.log[:] = []
         gemlib_threads.join_all()
+        eq.done41.clear()
         if isinstance(name, int):
             fn = host.stream_function(2, 41)({"RCMD": V.U1(name), "PARAMS": [{"CPNAME": a, "CPVAL": b} for a, b in params]})
             st, ans = bounded(lambda: host.settings.streams_functions.decode(host.send_and_waitfor_response(fn)))
         else:
             arg = collections.OrderedDict(params) if as_odict else [list(p) for p in params]
             st, ans = bounded(lambda: host.send_remote_command(name, arg))
-        settle(eq.log)       # the S2F42 leaves before the callback runs: let the handler finish
+        if not eq.done41.wait(CALL):     # the S2F42 leaves before the callback runs: wait for the END of the handling, not for a while
+            raise RuntimeError("c20_gem: the equipment did not finish handling an S2F41")
         errs = gemlib_threads.join_all()
         effs = [e for e in eq.log if not e.startswith("k")]
         got = ";".join(effs)
